@@ -193,6 +193,11 @@ def run(run):
                 'the restored model is compared on cells (address, value, formula text), formulae, names, ranges, on the stored values '
                 'the specification state holds, and every cell is evaluated in both models against the fresh value')
     run.exhaustive = True
+    # code -> spec: random multi-sheet workbooks under random histories, every evaluation judged by TLC (Trace_Local)
+    from checks import wbdrive
+    v = wbdrive.run_driver(run, 1200 if run.tier == 'quick' else 20000, mix='c12')
+    if v.get('ok', 0) < 2000:
+        raise xl.MachineryError(f'random workbook driver is vacuous: {dict(v)}')
 
 
 def replay(path):
